@@ -37,6 +37,9 @@ def run_all(chk, fsets, tier):
         chk.rule("S.position", floor=60 if i == 0 else 0,
                  doc="E4: bit_pos() returns pos = W*word_pos - bits_in_buffer; set_bit_pos(p) establishes pos' = p; read/skip/peek/read_unary/skip_after_peek move pos by exactly their declared amount (so table reads = peek + skip(len) advance by len)")
         re_.run_reader_effects(chk, F, fs, "S.position", groups=(None, "seek"))
+        import rules_bits
+        chk.rule("S.clean", floor=8 if i == 0 else 0, doc="bit-range domain: set_bit_pos leaves the buffer clean (cleared, then only the reloaded partial word inside the valid window)")
+        rules_bits.run_reader_cleanliness(chk, F, fs, "S.clean", groups=("seek",), keys=("set_bit_pos",))
     # backends
     import rules_c13, rules_c11
     for mod, rules, name in ((rules_c13, ("K.word_pos", "K.set_word_pos", "K.read_word"), "memory backends"), (rules_c11, ("A4.positions",), "byte adapter")):
